@@ -10,6 +10,7 @@ cd "$(dirname "$0")"
 export PYTHONDONTWRITEBYTECODE=1
 export PYTHONHASHSEED=0
 export PYCRAFT_VERIF=1
+export PYTHONWARNINGS=ignore
 export PYTHONPATH="$PWD${PYTHONPATH:+:$PYTHONPATH}"
 if [ "${1:-}" = "--replay" ]; then
   exec ./.venv/bin/python -m symx.replay "$2"
